@@ -45,6 +45,7 @@ type FuncContract struct {
 	File       string
 	Fresh      []string // results that are freshly allocated
 	Unroll     int
+	Callbacks  map[string]string // parameter name -> "pure"
 }
 
 type SpecParam struct {
@@ -260,6 +261,15 @@ func parseClause(fc *FuncContract, word, rest, pos string) error {
 		fc.Unroll = n
 	case "fresh":
 		fc.Fresh = append(fc.Fresh, splitComma(rest)...)
+	case "callback":
+		f := strings.Fields(rest)
+		if len(f) != 2 || f[1] != "pure" {
+			return fmt.Errorf("callback: want 'callback NAME pure'")
+		}
+		if fc.Callbacks == nil {
+			fc.Callbacks = map[string]string{}
+		}
+		fc.Callbacks[f[0]] = f[1]
 	case "havoc":
 		fc.NoInline = append(fc.NoInline, strings.Fields(rest)...)
 	case "requires":
